@@ -38,7 +38,14 @@ ConcOpsSmall == <<O("SetPhase", 1, ""), O("SetPhase", 3, ""), O("ResetPhase", 0,
 TripleSetups == {<<>>, <<O("AddShare", 0, "m3")>>}
 
 B(x) == PrintT(<<"BEHAVIOUR", ToJson(x)>>)
-Beh(k, cap, setup, procs) == [k |-> k, cap |-> cap, setup |-> setup, procs |-> procs]
+\* "hot" scenarios: two embedded setPhase calls with different targets run concurrently - the
+\* schedules in which the step machine (code as written, AtomicSetPhase = FALSE) lets the phase move
+\* backwards; the driver repeats them more often.
+Tgt(o) == CASE o.t = "SetPhase" -> o.v [] o.t = "AddNB" -> 3 [] OTHER -> 0
+Hot(procs) == IF \E i, j \in 1..Len(procs) : i # j /\ Tgt(procs[i][1]) > 0 /\ Tgt(procs[j][1]) > 0
+                                               /\ Tgt(procs[i][1]) # Tgt(procs[j][1]) THEN 1 ELSE 0
+Beh(k, cap, setup, procs) == [k |-> k, cap |-> cap, setup |-> setup, procs |-> procs,
+                              hot |-> IF k = "conc" THEN Hot(procs) ELSE 0]
 
 Printed ==
   /\ \A s \in [1..L -> SeqOps] : B(Beh("seq", 0, s, <<>>))
